@@ -2,6 +2,7 @@
 C16 — Decorators are transparent except for what they are meant to change.
 -/
 import CobaldVerif.Model.Decorators
+import CobaldVerif.Lemmas.Standardiser
 import CobaldVerif.Generated.SrcDecorators
 
 namespace Cobald.Props.C16
@@ -229,6 +230,24 @@ theorem history_records (ops : List Op) (s : Stack) (v : ERat) :
     | write v => exact write_keeps_loggers s v
     | world su ut al => exact setBase_keeps_loggers _ s
 
+/-- **a Standardiser inside a stack keeps its promise at the pool itself** (C06 carried through
+the stack model): with plain decorators and Loggers - any number, any order - between a
+Standardiser and the pool, every finite demand written to the Standardiser arrives at the pool
+as exactly the forwarded value, which lies within `[minimum, maximum]`; and whatever is stacked
+*above* the Standardiser cannot change that, because it can only choose the written value -/
+theorem stack_std_in_limits (p : Standardiser.Params) (hp : p.ok) (st : ERat) (s : Stack)
+    (h : transparent s = true) (x : Rat) :
+    (setDemand (.std p st s) (fin x)).1.basePool.demand = Standardiser.fwd p s.basePool.supply x ∧
+    p.min ≤ (setDemand (.std p st s) (fin x)).1.basePool.demand ∧
+    (setDemand (.std p st s) (fin x)).1.basePool.demand ≤ p.max := by
+  have hw := (demand_write_passthrough s (Standardiser.fwd p (getAttr .supply s) x) h).1
+  have hs : getAttr .supply s = s.basePool.supply := transparent_sua .supply s
+  simp only [setDemand, Stack.basePool]
+  rw [hw, hs]
+  refine ⟨rfl, ?_⟩
+  simp only [Standardiser.fwd, Standardiser.cd]
+  split <;> exact ⟨Standardiser.clamp_ge _ hp.1, Standardiser.clamp_le _ hp.1⟩
+
 /-! ### message templates -/
 
 /-- a template that names an unknown field is rejected when the Logger is constructed -/
@@ -274,6 +293,9 @@ example : (setDemand exStack (fin 7)).2.map (·.logger) = [2, 1] := by decide +k
 def exKnown : List (List Char) := ["value".toList, "demand".toList, "target".toList]
 def exDeep : Stack := .logger 3 (.std { min := .ninf, max := .pinf, g := 1, backlog := .pinf, surplus := .pinf } (fin 0) (.logger 2 (.buffer (fin 1) (.logger 1 (.base exPool)))))
 example : loggersReached exDeep = [3, 2] := by decide +kernel
+def exParams : Standardiser.Params := { min := fin 2, max := fin 9, g := 1, backlog := .pinf, surplus := .pinf }
+example : exParams.ok ∧ transparent exStack = true ∧
+    (setDemand (.std exParams (fin 0) exStack) (fin 50)).1.basePool.demand = fin 9 := by decide +kernel
 example : getAttr .supply ([Op.write (fin 9), .world 20 1 1, .read].foldl applyOp exDeep) = 20 := by decide +kernel
 example : templateOK exKnown "d = %(value)s [%(demand).2f] %%".toList = true := by decide +kernel
 example : templateOK exKnown "d = %(valu)s".toList = false := by decide +kernel
